@@ -103,7 +103,7 @@ var c01TagTemplates = []string{
 	"{% for i in (h..3) %}{{ i }}{% endfor %}",
 	"{% for i in (1..h) limit: 2 %}{{ i }}{% endfor %}",
 	"{% capture h %}x{% endcapture %}{{ h }}",
-	"{{ h }}{{ h.size }}{{ h.first }}{{ h[0] }}{{ h['k'] }}{{ h.A }}{{ h.b }}{{ h | size }}",
+	"{{ h }}{{ h.size }}{{ h.first }}{{ h[0] }}{{ h['k'] }}{{ h.A }}{{ h.b }}{{ h | size }}{{ h | first }}{{ h | join }}{{ h | reverse | last }}",
 	"{{ h.X }}{{ h.Y }}{{ h.Zone }}{{ h.None }}{{ h.Arg }}{{ h.Ok }}{{ h.Three }}{{ h[k] }}{% if h contains k %}c{% endif %}{% if h contains 'Zone' %}z{% endif %}{{ h.Fail }}",
 	"{% assign q = h %}{{ q }}{% assign q = h | default: 1 %}{{ q }}",
 	"{% break %}{% continue %}",
